@@ -6,6 +6,7 @@ from fractions import Fraction
 
 import numpy as np
 
+from .. import scenarios as SC
 from .. import shapes as S
 
 from .. import weaver_common as W
@@ -135,6 +136,8 @@ def gen_weaver(rng):
 
 
 def cases(rng, tier):
+    for _sc in range(6 if tier != "thorough" else 60):
+        yield SC.gen(rng, ['csv_twice'][_sc % 1])
     na, nb = {"quick": (300, 120), "thorough": (4000, 1200)}.get(tier, (200, 80))
     for _ in range(max(6, na // 25)):
         yield gen_counts(rng)
@@ -162,6 +165,8 @@ def scipy_values(x, y, new, method):
 
 
 def run_impl(c):
+    if isinstance(c, dict) and "scenario" in c:
+        return SC.run(c)
     if c["kind"] == "direct":
         from traffic_weaver.process import interpolate
         x, y, new = V(c)
@@ -194,6 +199,8 @@ def run_impl(c):
 
 
 def request(c):
+    if isinstance(c, dict) and "scenario" in c:
+        return []
     if c["kind"] == "direct":
         x, y, new = V(c)
         ext = "-"
@@ -205,6 +212,8 @@ def request(c):
 
 
 def compare(c, io, mo):
+    if isinstance(c, dict) and "scenario" in c:
+        return None
     if c["kind"] == "direct":
         m = mo[0]
         if io.get("none"):
@@ -219,6 +228,8 @@ def compare(c, io, mo):
 
 
 def oracle(c, io):
+    if isinstance(c, dict) and "scenario" in c:
+        return io.get("finding")
     if c["kind"] == "direct":
         x, y, new = V(c)
         xf, yf, nf = floats(x), floats(y), floats(new)
@@ -290,6 +301,8 @@ def oracle(c, io):
 
 
 def tags(c, io, mo):
+    if isinstance(c, dict) and "scenario" in c:
+        return ["scenario=" + c["scenario"]]
     if c["kind"] == "direct":
         return ([f"method={c['method']}", "affine" if c["affine"] else "generic"] + ([f"error={io['err']}"] if "err" in io else [])
                 + (["default-kwargs"] if "kw" in c else []))
@@ -300,6 +313,8 @@ def tags(c, io, mo):
 
 
 def nontrivial_key(c, io, mo):
+    if isinstance(c, dict) and "scenario" in c:
+        return c
     if c["kind"] == "direct":
         xs = set(c["x"])
         return c if "ok" in io and any(v not in xs for v in c["new"]) else None
